@@ -456,8 +456,9 @@ class Ctx:
         if n_ne:
             self.log(f'NOT-ENCODED: {n_ne} obligation(s) could not be encoded on this tree; the check cannot decide them (exit 2, not a pass)')
             return 2
-        if self.violations:
-            return 1
+        if n_inc:
+            self.log(f'INCONCLUSIVE: {n_inc} obligation(s) were not decided by any solver within the cap; not a pass (exit 2)')
+            return 2
         if n_ob == 0 or n_dis == 0:
             self.log('no obligation was discharged: machinery broken')
             return 2
